@@ -12,7 +12,7 @@ claims = {
    note="Trusted: SSA->SMT translation, solvers, append/make allocation semantics, UTF-8 validity via string([]rune(s))==s, readPacket's reassembly of the byte stream is covered for safety and bounds (C06) but not for content equality, caller obligations at the API boundary (topic/filter/client id/user/password <= 65535 bytes, body <= 268435455 bytes, QoS <= 2), input slices do not alias. Integers are mathematical with an overflow obligation at every signed operation.",
    ref="DESIGN.md section 4.C05"),
  "C06": dict(
-   text="Proof of panic-freedom (index, slice bounds, make, nil, explicit panic) of readPacket, unpackString/unpackUint16, every Parse and the serve loop body for every byte string the transport can deliver; one packet allocates at most its declared remaining length, which is bounded by 268435455; every malformed class named in the property returns a non-nil error; the reader goroutine stores that error and reports Closed before closing Done().",
+   text="Proof of panic-freedom (index, slice bounds, make, nil, explicit panic, close of a closed channel, send on a closed channel) of every function under contract, under its stated caller obligations, in particular readPacket, unpackString/unpackUint16, every Parse, the serve loop body and the request functions that consume acknowledgements, for every byte string the transport can deliver; readPacket decodes the fixed header exactly (type, flags, 1-4 length bytes, body) and refuses a fifth length byte with ErrInvalidPacketLength; one packet allocates at most its declared remaining length, which is bounded by 268435455; every malformed class named in the property returns a non-nil error; the reader goroutine stores that error and reports Closed before closing Done().",
    note="Two defects found and fixed (D1 SUBACK shorter than 2 bytes, D2 unbounded length field). Trusted: io.ReadFull/io.Reader contract, user handler code returns.",
    ref="DESIGN.md section 4.C06"),
  "C15": dict(
